@@ -5,7 +5,7 @@ stream goes through the real CLI binary with -c); types.ts and commands.ts are r
 extracted observation (Spec/C04Obs.v over Spec/TsLex.v) and resolved by Model/C04Model.invoke_keys
 to (key, omittable, validated?) entries. Model side: Model/C04Model.generate + the same resolution.
 Oracle: Spec/C04TauriCase.v (keys_ok, optional_ok, zod_src_ok, modes_ok) on the implementation's
-observation; the spec's camelCase is cross-checked against heck::ToLowerCamelCase on every name."""
+observation; the spec's camelCase / snake_case are cross-checked against heck::ToLowerCamelCase / ToSnakeCase on every name."""
 import itertools
 import json
 import os
@@ -15,9 +15,9 @@ from tools import vlib
 from tools.vlib import Outcome, sx
 
 MANIFEST = {
-    "level_text": "Coq theorems (Properties/C04.v, no axioms) about a Gallina transcription of is_tauri_parameter_type, channel extraction, Option detection, compute_parameter_name over serde-rename-rule's apply_to_field (with the CamelCase slices that can panic) and the five template shapes that decide the second argument of invoke, for every parameter list, every name over [a-z0-9_], all eight configured cases and both modes: outside five narrow recorded classes the (key, omittable) pairs reaching invoke are a permutation of Tauri's (one per non-injected parameter incl. channels, named by heck's lowerCamelCase rule / the configured serde rule, omittable iff Option), Zod mode validates exactly the value keys and re-attaches exactly the channel keys, both modes deliver the same entries (unconditionally), and apply_to_field(CamelCase) equals Tauri's word rule. Tied to /repo on every run: both generators run on generated commands, the written files are read back by the extracted observation and compared with the model and the spec.",
+    "level_text": "Coq theorems (Properties/C04.v, no axioms) about a Gallina transcription of is_tauri_parameter_type, channel extraction (incl. the repaired ipc::Channel), Option detection, compute_parameter_name over serde-rename-rule's apply_to_field behind the call-site guard of apply_naming_convention, and the five template shapes that decide the second argument of invoke, for every parameter list, every name over [a-z0-9_], all eight configured cases and both modes: generation never panics; outside four narrow recorded classes the (key, omittable) pairs reaching invoke are a permutation of Tauri's (one per non-injected parameter incl. channels, named by heck's lowerCamelCase / snake_case rule or the configured serde rule, omittable iff Option), Zod mode validates exactly the value keys and re-attaches exactly the channel keys, both modes deliver the same entries (unconditionally), and the guarded camelCase equals Tauri's word rule. Tied to /repo on every run: both generators run on generated commands, the written files are read back by the extracted observation and compared with the model and the spec.",
     "design_ref": "DESIGN.md section 5 C04, section 11 camel_agrees",
-    "level_note": "The model represents the generated module by what the key set depends on (schema keys, Params declaration, call-site shape), not by its text; the reading of the real files (Spec/C04Obs.v, token level, tolerant of non-identifier keys) is trusted, not proved against a TypeScript grammar. Commands carrying #[serde(..)] attributes on the function or its parameters (a mechanism of the tool, rejected by rustc/Tauri) are outside the model. Five known classes are premises of C04_keys/C04_optional (bare Window, ipc::Channel, unqualified Request, rename_all in the command attribute, underscore-only names under camelCase).",
+    "level_note": "The model represents the generated module by what the key set depends on (schema keys, Params declaration, call-site shape), not by its text; the reading of the real files (Spec/C04Obs.v, token level, tolerant of non-identifier keys) is trusted, not proved against a TypeScript grammar. Commands carrying #[serde(..)] attributes on the function or its parameters (a mechanism of the tool, rejected by rustc/Tauri) are outside the model. Four known classes are premises of C04_keys/C04_optional (bare Window, unqualified Request, rename_all in the command attribute, underscore-only names under camelCase); C04-2 (ipc::Channel) and C04-5 (panic on underscore-only names) are repaired and their witnesses are regression cases.",
     "technique": "Rocq/Coq proof over hand-written model + correspondence check (extracted OCaml vs Rust harness and real CLI)"
 }
 
@@ -27,14 +27,14 @@ RULE = ("one command per case: 0-6 parameters mixing value types, every listed s
         "up to length 4 x 8 cases; every spelling alone and next to a value parameter in both orders). A case is non-trivial when it "
         "has at least one parameter; distinct = distinct (command, configuration) pairs")
 TRUSTED = ["Spec/C04Obs.v: token-level reading of types.ts/commands.ts (Params declaration, z.object keys, the invoke argument) - a model of TypeScript, not proved",
-           "Spec/C04TauriCase.v: Tauri's argument naming and the list of injected types, transcribed from the property text and tauri-macros; camelCase cross-checked against heck 0.5 on every generated name",
+           "Spec/C04TauriCase.v: Tauri's argument naming and the list of injected types, transcribed from the property text and tauri-macros; lowerCamelCase and snake_case cross-checked against heck 0.5 on every generated name",
            "python printer of the Rust source; its type abstraction is cross-checked against syn on every case"]
 ASSUMPTIONS = ["z.object(..).safeParse strips keys that are not in the schema (Zod default), so result.data carries exactly the schema keys",
                "a key of the Params type is omittable by the caller iff it is declared with ? (interface) or its schema ends in .optional() (z.infer)"]
 
 CASES8 = ["lowercase", "UPPERCASE", "PascalCase", "camelCase", "snake_case", "SCREAMING_SNAKE_CASE", "kebab-case", "SCREAMING-KEBAB-CASE"]
-KF_IDS = ["C04-1", "C04-2", "C04-3", "C04-4", "C04-5"]          # order of ExC04.c04_classes
-KF_PRIORITY = [4, 3, 1, 2, 0]                                      # panic first, then macro case, ...
+KF_IDS = ["C04-1", "C04-3", "C04-4", "C04-6"]                     # order of ExC04.c04_classes
+KF_PRIORITY = [3, 2, 1, 0]                                         # underscore-only name first, then macro case, ...
 KEYWORDS = {"as", "do", "fn", "if", "in", "mod", "mut", "pub", "ref", "use", "box", "dyn", "for", "let", "try", "type", "self",
             "impl", "loop", "move", "enum", "else", "true", "false", "super", "crate", "async", "await", "const", "match", "priv",
             "static", "struct", "trait", "unsafe", "where", "while", "yield", "final", "macro", "break", "return", "extern",
@@ -70,11 +70,11 @@ CHANNEL_TYPES = [
     ("Channel<String>", P(["Channel"], ["T"])), ("Channel<Item>", P(["Channel"], ["T"])), ("Channel<i32>", P(["Channel"], ["T"])),
     ("tauri::ipc::Channel<String>", P(["tauri", "ipc", "Channel"], ["T"])), ("tauri::ipc::Channel<Item>", P(["tauri", "ipc", "Channel"], ["T"])),
     ("Channel<Vec<u8>>", P(["Channel"], ["T"])),
+    ("ipc::Channel<String>", P(["ipc", "Channel"], ["T"])), ("ipc::Channel<Item>", P(["ipc", "Channel"], ["T"])),
 ]
 KF_TYPES = {
     0: [("Window", P(["Window"]))],
-    1: [("ipc::Channel<String>", P(["ipc", "Channel"], ["T"])), ("ipc::Channel<Item>", P(["ipc", "Channel"], ["T"]))],
-    2: [("Request<'_>", P(["Request"], ["L"])), ("ipc::Request<'_>", P(["ipc", "Request"], ["L"]))],
+    1: [("Request<'_>", P(["Request"], ["L"])), ("ipc::Request<'_>", P(["ipc", "Request"], ["L"]))],
 }
 # outside the quantifier: faithfulness of the model only
 ODD_TYPES = [
@@ -129,11 +129,11 @@ def random_case(rng, kf_class=None):
         params.append((gen_name(rng, used), t))
     default_case = rng.choice([None, None, "camelCase", "camelCase"] + CASES8)
     macro = None
-    if kf_class in (0, 1, 2):
+    if kf_class in (0, 1):
         params.insert(rng.randint(0, len(params)), (gen_name(rng, used), rng.choice(KF_TYPES[kf_class])))
-    elif kf_class == 3:
+    elif kf_class == 2:
         macro = "snake_case"
-    elif kf_class == 4:
+    elif kf_class == 3:
         default_case = rng.choice([None, "camelCase"])
         params.insert(rng.randint(0, len(params)), (rng.choice(["__", "___", "____"]), rng.choice(VALUE_TYPES + CHANNEL_TYPES)))
     else:
@@ -161,7 +161,7 @@ def exhaustive_names():
     for s in small_names():
         for dc in CASES8:
             if set(s) == {"_"} and dc == "camelCase":
-                continue                  # class C04-5, exercised by its own stream
+                continue                  # class C04-6, exercised by its own stream
             cases.append(mk_case("cmd", [(s, VALUE_TYPES[0])], None, dc))
         cases.append(mk_case("cmd", [(s, CHANNEL_TYPES[0]), ("v", OPTION_TYPES[0])], None, None) if set(s) != {"_"} else
                      mk_case("cmd", [(s, CHANNEL_TYPES[0]), ("v", OPTION_TYPES[0])], None, "snake_case"))
@@ -180,6 +180,7 @@ def exhaustive_spellings():
     for i in INJECTED_TYPES:
         for c in CHANNEL_TYPES[:4]:
             cases.append(mk_case("mix_cmd", [("app_h", i), ("user_id", VALUE_TYPES[1]), ("on_event", c)]))
+        cases.append(mk_case("mix_cmd", [("on_event", CHANNEL_TYPES[6]), ("app_h", i), ("user_id", OPTION_TYPES[0])], default_case="kebab-case"))
     return cases
 
 
@@ -308,8 +309,8 @@ def evaluate(cases, via="harness", in_domain=True):
     if heck and in_domain:
         ns = sorted(heck)
         for n, r in zip(ns, vlib.run_runner("c04-camel", [sx(n) for n in ns])):
-            if r != heck[n]:
-                raise vlib.BuildError("Spec tauri_camel(%r) = %r but heck::ToLowerCamelCase gives %r" % (n, r, heck[n]))
+            if list(r) != list(heck[n]):
+                raise vlib.BuildError("Spec (tauri_camel, tauri_snake)(%r) = %r but heck gives %r" % (n, r, heck[n]))
     outs = []
     for c, o in zip(cases, obs):
         case = {k: c[k] for k in ("name", "macro", "attr", "default_case", "params")}
@@ -407,7 +408,7 @@ def run(rep):
     distribution(rep, "random", main)
     rep.add("random", evaluate(main))
     nk = 400 if thorough else 40
-    inside = [random_case(rng, k) for k in range(5) for _ in range(nk)]
+    inside = [random_case(rng, k) for k in range(4) for _ in range(nk)]
     distribution(rep, "random-inside-classes", inside)
     rep.add("random-inside-classes", evaluate(inside))
     ncli = 3000 if thorough else 120
